@@ -120,12 +120,25 @@ fn chip_kind(main: &ColMatrix<Felt>, r: usize) -> String {
 pub fn chip_key(main: &ColMatrix<Felt>, r: usize) -> String {
     let a = chip_kind(main, r);
     let b = chip_kind(main, r + 1);
-    let mut k = format!("chip|{}->{}|{}", a, b, r % 8);
+    // the position within the 8-row cycle matters for the components with periodic columns (hasher,
+    // bitwise), not for memory / kernel ROM rows
+    let periodic = !(a.starts_with("memory") || a.starts_with("kernel") || a.starts_with("padding"));
+    let mut k = if periodic { format!("chip|{}->{}|{}", a, b, r % 8) } else { format!("chip|{}->{}|-", a, b) };
     if a.starts_with("memory") && b.starts_with("memory") {
         use miden_air::trace::chiplets::{MEMORY_ADDR_COL_IDX, MEMORY_CTX_COL_IDX};
         let same_ctx = tc::g(main, MEMORY_CTX_COL_IDX, r) == tc::g(main, MEMORY_CTX_COL_IDX, r + 1);
         let same_addr = tc::g(main, MEMORY_ADDR_COL_IDX, r) == tc::g(main, MEMORY_ADDR_COL_IDX, r + 1);
         k.push_str(if !same_ctx { "|ctx-change" } else if !same_addr { "|addr-change" } else { "|same-addr" });
+        // an all-zero word makes "write" and "first read" (and "copy" and "fresh") indistinguishable:
+        // rows holding zero words are kinds of their own
+        use miden_air::trace::chiplets::MEMORY_V_COL_RANGE;
+        let zero = |row: usize| MEMORY_V_COL_RANGE.clone().all(|c| tc::g(main, c, row) == 0);
+        if zero(r) {
+            k.push_str("|z");
+        }
+        if zero(r + 1) {
+            k.push_str("|Z");
+        }
     }
     k
 }
@@ -367,10 +380,68 @@ pub fn learn(ntraces: u64) -> i32 {
     0
 }
 
+/// rows of every kind of a trace (at most 10 per kind)
+fn index_rows(et: &processor::ExecutionTrace) -> BTreeMap<String, Vec<usize>> {
+    let (em, en) = (et.main_segment(), et.trace_len_summary().main_trace_len());
+    let mut idx: BTreeMap<String, Vec<usize>> = BTreeMap::new();
+    for rr in 0..et.length() - 2 {
+        let mut keys = vec![chip_key(em, rr), range_key(em, rr)];
+        if rr < en {
+            keys.push(stack_key(em, rr));
+        }
+        for k2 in keys {
+            let e = idx.entry(k2).or_default();
+            if e.len() < 10 {
+                e.push(rr);
+            }
+        }
+    }
+    idx
+}
+
 fn gen_scenario(rng: &mut Rng) -> Value {
+    if rng.chance(1, 12) {
+        return ladder_scenario(rng);
+    }
     let mut cfg = GenCfg::swarm(rng);
     cfg.max_dyn_ops = 2500;
     pop::scenario(rng, cfg)
+}
+
+/// "context ladder": 8-30 procedures, each entered once through `call` / `syscall` (a context of its
+/// own) and performing 1-5 element / word loads and stores over a pool of four addresses with zero
+/// and non-zero values. The memory table of such a trace has one context-change row pair per
+/// procedure, in many read/write/zero combinations (ordinary programs have a handful).
+fn ladder_scenario(rng: &mut Rng) -> Value {
+    let n = rng.range(8, 30);
+    let pool = [0u64, 1, 7, (1 << 32) - 1];
+    let mut src = String::new();
+    for j in 0..n {
+        src.push_str(&format!("proc.c{}\n    push.{} drop\n", j, 3000 + j));
+        for _ in 0..rng.range(1, 5) {
+            let a = *rng.pick(&pool);
+            let v = if rng.chance(1, 3) { 0 } else { 1 + rng.below(P - 1) };
+            let line = match rng.below(6) {
+                0 => format!("push.{} mem_store.{}", v, a),
+                1 => format!("push.{}.{}.{}.{} mem_storew.{} dropw", v, if v == 0 { 0 } else { rng.felt() }, if v == 0 { 0 } else { rng.felt() }, v, a),
+                2 | 3 => format!("mem_load.{} drop", a),
+                4 => format!("padw mem_loadw.{} dropw", a),
+                _ => format!("push.{} mem_load drop", a),
+            };
+            src.push_str(&format!("    {}\n", line));
+        }
+        src.push_str("end\n\n");
+    }
+    src.push_str("begin\n");
+    for j in 0..n {
+        if rng.chance(1, 4) {
+            // the root context accesses memory in between as well
+            src.push_str(&format!("    push.{} mem_store.{}\n", rng.below(3), rng.pick(&pool)));
+        }
+        src.push_str(&format!("    call.c{}\n", j));
+    }
+    src.push_str("end\n");
+    json!({"prog": {"source": src, "stack_inputs": [], "advice_stack": []}, "knobs": pop::knobs(rng), "challenges": pop::challenges(rng)})
 }
 
 impl Prop for C04 {
@@ -387,11 +458,12 @@ impl Prop for C04 {
         }
     }
     fn rule(&self) -> &'static str {
-        "one run = one honest trace; for up to 4 rows of every row kind present (operation x depth regime; chiplet row kind x cycle position; range-checker row kind) every cell of the kind's cell set (next-row stack positions, b0', b1', h0', clk', fmp', current-row helper registers; chiplet and range cells of both rows) is replaced by every value of a fixed wrong-value menu (v+1, v-1, v+3, 0/1 or bit flip, a seeded random element) and all main transition constraints of that row pair are evaluated. One evaluation = one injected wrong value; it counts as non-trivial when the cell is classified enforced (D in the committed table, or documented-enforced for the operation groups the property names); such an injection must be rejected. In addition composite forgeries rewrite a whole row under a wrong interpretation of the transition (a memory access to another address or context claimed to be a re-access of the previous word; a left shift at depth > 16 claimed to happen at depth 16) and must be rejected by the row pair's constraints. Distinct = (row kind, cell, wrong-value kind)."
+        "one run = one honest trace (G_all swarm program, or in 1 of 12 runs a context ladder: 8-30 called procedures each accessing a small address pool, which gives many context-change pairs in the memory table); for up to 4 rows of every row kind present (operation x depth regime; chiplet row kind x cycle position; range-checker row kind) every cell of the kind's cell set (next-row stack positions, b0', b1', h0', clk', fmp', current-row helper registers; chiplet and range cells of both rows) is replaced by every value of a fixed wrong-value menu (v+1, v-1, v+3, 0/1 or bit flip, a seeded random element) and all main transition constraints of that row pair are evaluated. One evaluation = one injected wrong value; it counts as non-trivial when the cell is classified enforced (D in the committed table, or documented-enforced for the operation groups the property names); such an injection must be rejected; a wrong value that passes is reported only if the same kind of wrong value also passes on other rows of that kind in this trace and on rows of that kind in up to 12 independent traces (or, where those have no row of the kind, on at least 4 of 4 rows of this trace) (value coincidences do not repeat there). In addition composite forgeries rewrite a whole row under a wrong interpretation of the transition (a memory access to another address or context claimed to be a re-access of the previous word; a left shift at depth > 16 claimed to happen at depth 16) and must be rejected by the row pair's constraints. Distinct = (row kind, cell, wrong-value kind)."
     }
     fn generate(&self, rng: &mut Rng, _tier: Tier, _index: u64) -> Value {
         let mut sc = gen_scenario(rng);
         sc["sweep_seed"] = json!(rng.next() >> 11);
+        sc["confirm_seed"] = json!(rng.next() >> 11);
         sc
     }
     fn execute(&self, sc: &Value) -> RunOut {
@@ -489,6 +561,7 @@ impl Prop for C04 {
             }
         }
         let mut judged: std::collections::BTreeSet<(String, String, &'static str)> = Default::default();
+        let mut extra: Vec<(Box<processor::ExecutionTrace>, Monitor, BTreeMap<String, Vec<usize>>)> = vec![];
         for (key, cell, r, v, val, kind) in &misses {
             let (src, enf) = classify(key, cell);
             if !enf || !judged.insert((key.clone(), cell.clone(), kind)) {
@@ -524,6 +597,84 @@ impl Prop for C04 {
             if (tried <= 3 && passed < tried) || passed * 2 < tried {
                 out.count("probe:miss-is-a-value-coincidence");
                 continue;
+            }
+            // second stage: the same kind of wrong value on rows of the same kind in independent traces
+            // (other programs, derived from the scenario's confirmation seed). A coincidence of this
+            // program's values does not repeat there; a weakened constraint lets it through everywhere.
+            {
+                if extra.is_empty() {
+                    let mut crng = Rng::new(sc["confirm_seed"].as_u64().unwrap_or(0x5eed) ^ 0xC04);
+                    for j in 0..12 {
+                        if j % 4 == 3 {
+                            let esc = ladder_scenario(&mut crng);
+                            let espec = ProgSpec::from_json(&esc["prog"]);
+                            if let Ok(eprog) = espec.assemble(false) {
+                                let mut ehost = espec.host(vec![], HostCfg::default());
+                                if let Outcome::Ok(et) = vm::run(&eprog, espec.stack(), &mut ehost, vm::options(Some(1 << 20), 64, false)) {
+                                    let emon = Monitor::new(&et, espec.stack());
+                                    let idx = index_rows(&et);
+                                    extra.push((et, emon, idx));
+                                }
+                            }
+                            continue;
+                        }
+                        let mut cfg = GenCfg::swarm(&mut crng);
+                        cfg.max_dyn_ops = 2500;
+                        cfg.w_mem += 3;
+                        if j % 3 != 0 {
+                            // many contexts touching the same few addresses
+                            cfg.allow_call = true;
+                            cfg.n_procs = cfg.n_procs.max(3);
+                            cfg.w_mem += 4;
+                            cfg.w_ctrl += 2;
+                        }
+                        let esc = pop::scenario(&mut crng, cfg);
+                        let espec = ProgSpec::from_json(&esc["prog"]);
+                        if let Ok(eprog) = espec.assemble(false) {
+                            let mut ehost = espec.host(vec![], HostCfg::default());
+                            if let Outcome::Ok(et) = vm::run(&eprog, espec.stack(), &mut ehost, vm::options(Some(1 << 20), 64, false)) {
+                                let emon = Monitor::new(&et, espec.stack());
+                                let idx = index_rows(&et);
+                                extra.push((et, emon, idx));
+                            }
+                        }
+                    }
+                }
+                let (mut xt, mut xp) = (0u32, 0u32);
+                for (et, emon, idx) in &extra {
+                    let em = et.main_segment();
+                    let (mut cur, mut next, mut buf) = (vec![ZERO; w], vec![ZERO; w], vec![ZERO; emon.n_main]);
+                    let mut here = 0;
+                    for rr in idx.get(key).map(|v| v.as_slice()).unwrap_or(&[]).iter().cloned() {
+                        em.read_row_into(rr, &mut cur);
+                        em.read_row_into(rr + 1, &mut next);
+                        let hv = if in_next { next[col].as_int() } else { cur[col].as_int() };
+                        if let Some(x) = value_of_kind(kind, hv, *val) {
+                            let other = if in_next { cur[col].as_int() } else { next[col].as_int() };
+                            if !key.starts_with("op|") && x == other {
+                                continue;
+                            }
+                            xt += 1;
+                            here += 1;
+                            if !rejected(emon, &cur, &next, rr, col, in_next, x, &mut buf) {
+                                xp += 1;
+                            }
+                            if here >= 10 {
+                                break;
+                            }
+                        }
+                    }
+                }
+                if xt < 2 {
+                    // no rows of this kind elsewhere: only strong evidence within this trace counts
+                    if !(tried >= 4 && passed == tried) {
+                        out.count("probe:miss-not-confirmable-on-independent-traces");
+                        continue;
+                    }
+                } else if (xt <= 3 && xp < xt) || xp * 4 < xt * 3 {
+                    out.count("probe:miss-is-a-value-coincidence-of-this-trace");
+                    continue;
+                }
             }
             let what = key.split('|').collect::<Vec<_>>();
             let class = if src == "doc" && table.get(key).and_then(|m| m.get(cell)).map(|s| s != "D").unwrap_or(true) {
